@@ -165,22 +165,23 @@ def run(ctx, rep):
         rep.check(not stray, 'R3', t + '/constructor-sites', where, 'tuple constructor used only in from_str and new_unchecked', 'unvalidated construction of %s in %s' % (short, stray))
         for g, bi, st in ctor_sites:
             if g.path == f.path and st is not None:
-                cds = [cd for cd in conditions(f, bi, sl) if cd.kind == 'bool']
+                # the constructor runs only when is_match(Regex::new(<literal>), <input>) is Ok(true); every spelling of
+                # "errors count as non-match" reduces to a true-branch on the success payload of that call:
+                #   Regex::new(..).and_then(|r| r.is_match(v)).unwrap_or(false)   /   match r.is_match(v) { Ok(true) => .. }
                 good = False
-                for cd in cds:
+                for cd in conditions(f, bi, sl):
+                    if cd.kind != 'bool' or cd.outcome is not True:
+                        continue
                     v = cd.value
-                    if cd.outcome is True and v[0] == 'call' and v[1].endswith('unwrap_or') and strip(v[2][1]) == ('const', False):
-                        inner = strip(v[2][0])
-                        has_new = any(x[0] == 'call' and x[1] == 'fancy_regex::Regex::new' for x in walk(inner))
-                        cl = [x for x in walk(inner) if x[0] == 'closure']
-                        ism = False
-                        for c0 in cl:
-                            body = prog.fns.get(c0[1])
-                            if body is not None:
-                                bv = strip(sl.local(body, 0))
-                                ism = bv[0] == 'call' and bv[1] == 'fancy_regex::Regex::is_match' and strip(bv[2][1])[0] in ('param', 'upvar') or \
-                                    (bv[0] == 'call' and bv[1] == 'fancy_regex::Regex::is_match' and strip(bv[2][1]) == ('param', f.path, 0, f.local_name(1)))
-                        good = has_new and ism
+                    if v[0] == 'call' and v[1].endswith('unwrap_or') and len(v[2]) == 2 and strip(v[2][1]) == ('const', False):
+                        v = sl.mk_unwrap(v[2][0], 1)
+                    if v[0] != 'unwrap':
+                        continue
+                    m = strip(v)
+                    if m[0] == 'call' and m[1] == 'fancy_regex::Regex::is_match' and len(m[2]) == 2:
+                        rxv, inp = m[2][0], strip(m[2][1])
+                        has_new = rxv[0] == 'unwrap' and strip(rxv)[0] == 'call' and strip(rxv)[1] == 'fancy_regex::Regex::new'
+                        good = good or (has_new and inp[0] == 'param' and inp[1] == f.path and inp[2] == 0)
                 rep.check(good, 'R3', t + '/guard', where, 'constructed only when Regex::new(..).and_then(is_match(value)).unwrap_or(false) is true',
                           'the constructor in from_str is not guarded by the regex match (errors must count as non-match)')
                 v = sl._rvalue(f, st[2], set(), 0, None)
@@ -192,7 +193,8 @@ def run(ctx, rep):
         if len(ds) == 1:
             rep.analysed(ds[0])
             fulls = {c.full for c in ds[0].calls if c.full}
-            ok = any(('parse::<%s>' % t) in n for n in fulls) and any('for std::string::String>::deserialize' in n for n in fulls) and not any('new_unchecked' in n for n in fulls)
+            via_parse = any(('parse::<%s>' % t) in n for n in fulls) or any(c.res == f.path or c.name == f.path for c in ds[0].calls)
+            ok = via_parse and any('for std::string::String>::deserialize' in n for n in fulls) and not any('new_unchecked' in n for n in fulls)
         rep.check(ok, 'R3', t + '/deserialize', where, 'Deserialize = String::deserialize -> parse::<%s>' % short, 'Deserialize for %s does not go through parse' % short)
         # new_unchecked callers only from the literal macro
         mname = T['types'][t]['macro']
